@@ -154,6 +154,16 @@ impl RemovalBuffer {
         }
     }
 
+    /// Forgets removals registered for an entity.
+    ///
+    /// Keeps the allocated memory for reuse.
+    pub(super) fn remove_entity(&mut self, entity: Entity) {
+        if let Some(mut components) = self.removals.remove(&entity) {
+            components.clear();
+            self.ids_buffer.push(components);
+        }
+    }
+
     /// Clears all removals.
     ///
     /// Keeps the allocated memory for reuse.
